@@ -1471,6 +1471,51 @@ func genSrvSoup(p *prng, thorough bool, w *bufio.Writer) {
 			}
 		}
 	}
+	// the per-request timeout (ReadTimeout) fires while requests are in every stage: handler running, request half
+	// received, response held back by flow control. Afterwards the stream loop must still be alive: a later request is
+	// served, the connection ends cleanly. (The model has no timer: after `sleep` only the monitors speak.)
+	timeouts := 6
+	if thorough {
+		timeouts = 40
+	}
+	for i := 0; i < timeouts; i++ {
+		g.line("# connection with request timeout")
+		if g.conns > 0 {
+			g.line("srv %s end", g.id)
+		}
+		g.conns++
+		g.enc = newPeerEnc()
+		g.next = 1
+		g.gaugeEach = false
+		g.line("srv %s new mcs=8 mhl=0 mrb=0 rt=25", g.id)
+		g.settings()
+		var running []uint32
+		for k := 1 + p.intn(3); k > 0; k-- {
+			sid := g.sid()
+			switch p.intn(3) {
+			case 0: // complete request, handler running
+				g.frame(frameBytes(1, 5, sid, g.hdrBlock(true)))
+				running = append(running, sid)
+			case 1: // request half received
+				g.frame(frameBytes(1, 4, sid, g.hdrBlock(false)))
+			default: // handler done, response blocked by a zero window
+				g.frame(frameBytes(4, 0, 0, settingsPayload(4, 0)))
+				g.frame(frameBytes(1, 5, sid, g.hdrBlock(true)))
+				g.done(sid, respGen{status: 200, body: "pat:500"})
+			}
+		}
+		g.line("srv %s sleep 80", g.id)
+		// life goes on
+		sid := g.sid()
+		g.frame(frameBytes(1, 5, sid, g.hdrBlock(true)))
+		g.done(sid, respGen{status: 200, body: "none"})
+		for _, r := range running {
+			if p.chance(1, 2) {
+				g.done(r, respGen{status: 200, body: "none"})
+			}
+		}
+		g.ping(9)
+	}
 	// teardown with many handlers still running (the handlerDone channel holds 128): the peer hangs up, or commits a
 	// connection error first; then the handlers return. Nothing of the connection may be left behind.
 	crowds := 4
